@@ -257,7 +257,7 @@ def finish(prop, tier, seed, level, results, *, functions, bounds, stubs, assump
           "assumptions": assumptions, "wall_s": round(time.time() - t0, 2), "violations": new_viol,
           "technique": technique}
     os.makedirs(os.path.join(OUT, "evidence"), exist_ok=True)
-    with open(os.path.join(OUT, "evidence", "%s.json" % prop), "w") as f:
+    with open(os.path.join(OUT, "evidence", "%s%s.json" % (prop, ".partial" if os.environ.get("VERIF_ONLY") else "")), "w") as f:
         json.dump(ev, f, indent=1, default=str)
     for ln in lines:
         print(ln)
